@@ -166,4 +166,38 @@ PROPS = {
                 "Non-trivial: the history has a Clear or EraseFinalStates after at least one add, and a duplicate add. Distinct: hash of the planned history.",
         "assumptions": COMMON_ASSUMPTIONS + ["Clear() also empties the final set (as implemented and as the model assumes)"],
     },
+    "C16": {
+        "harness": "c16",
+        "quick": {"workers": 8, "cases": 5000, "size": 30, "min_records": 4},
+        "thorough": {"workers": 16, "cases": 80000, "size": 50, "min_records": 4},
+        "min_nontrivial_frac": 0.2,
+        "rule": "labelled transition systems with 1-8 (thorough 14) states, 1-4 labels, generated edges (states without in/out edges, several labels between the same states; exact duplicates of an edge kept in 1/8 of the cases), "
+                "initial partition = single block (computeSimulation(size) / computeSimulation()) or a generated partition into non-empty blocks with a generated preorder on blocks (reflexive transitive closure of "
+                "generated pairs), requested output size n or 1..n; the result size and every entry (q,r) below the output size are compared with the naive greatest simulation inside {(q,r) | block(q) <= block(r)}. "
+                "Non-trivial: the reference relation is strictly between identity and total and at least one pair had to be removed. Distinct: hash of the case text.",
+        "assumptions": COMMON_ASSUMPTIONS + ["the partition covers exactly 0..n-1 with non-empty blocks, the block relation is a preorder of matching size, init() is called, n >= 1 (the engine's preconditions)"],
+    },
+    "C17": {
+        "harness": "c17",
+        "quick": {"workers": 8, "cases": 2000, "size": 40, "min_records": 6},
+        "thorough": {"workers": 16, "cases": 25000, "size": 70, "min_records": 6},
+        "min_nontrivial_frac": 0.3,
+        "rule": "histories over a pool of <= 7 OndriksMTBDD handles (leaf type int, or OrdVector<size_t> in 1/3 of the cases) over 6 variables: constructor (cube with don't-cares, value, default), constant, Apply1/2/3 with "
+                "table-driven leaf operations (arbitrary functions, max, min), Project (variable set, idempotent combiner max/min), Rename (strictly increasing map), ExtendWith (prefix cube above all variables of the operand), "
+                "GetMtbddForPrefix (concrete prefix), copy, assignment, destruction, VoidApply1/2 (visited leaves / leaf pairs = co-occurring values). After EVERY step GetValue on all 64 total assignments of every live handle "
+                "is compared with a truth-table model, operator==/!= between every pair of live handles must coincide with equality of the tables, and GetPaths of one handle must be a partition of the assignment space with the "
+                "right values. Non-trivial: the history contains an apply whose operands share sub-graphs and produces a function with >= 3 distinct leaves. Distinct: hash of the history.",
+        "assumptions": COMMON_ASSUMPTIONS + ["Project only with idempotent commutative associative combiners; Rename only with strictly increasing maps; ExtendWith only above all variables of the operand (the documented/observed domains)"],
+    },
+    "C18": {
+        "harness": "c18",
+        "quick": {"workers": 8, "cases": 2000, "size": 50, "min_records": 8},
+        "thorough": {"workers": 16, "cases": 30000, "size": 70, "min_records": 8},
+        "min_nontrivial_frac": 0.3,
+        "rule": "histories over a pool of heap-allocated MTBDD handles restricted to the operations the property names: construct, constant, copy, assignment (incl. self-assignment and between handles sharing a root), "
+                "Apply1/2/3, destruction in generated order (also implicit destruction by overwriting a pool slot), read-only visitors; after every step all live handles must still equal their truth tables (ASan: no "
+                "use-after-free / double free); at the end every handle is destroyed and the sizes of the leaf and internal unique tables (hook LIBVATA_VERIF) must equal their values before the history. "
+                "Non-trivial: a handle sharing nodes with a live one is destroyed and the survivor is read afterwards. Distinct: hash of the history.",
+        "assumptions": COMMON_ASSUMPTIONS + ["the size law is asserted for handles created by construction, copy and apply only (Project may leave unreferenced nodes by design)"],
+    },
 }
